@@ -127,6 +127,9 @@ func (c *vnConn) WriteTo(p []byte, addr net.Addr) (int, error) {
 		return 0, net.ErrClosed
 	}
 	tok := c.h.tokOf(addr.String())
+	if len(c.ops) > 20000 {
+		return len(p), nil
+	}
 	c.ops = append(c.ops, vnOp{op: "wr", t: time.Now(), x: tok})
 	c.writes = append(c.writes, vnWrite{data: append([]byte(nil), p...), dst: tok, t: time.Now()})
 	return len(p), nil
@@ -221,6 +224,10 @@ func (m *vnMetrics) AddUDPNatEntry(clientAddr net.Addr, accessKey string) UDPCon
 }
 func (c *vnConnMetrics) add(e vnMEv) {
 	c.m.mu.Lock()
+	if len(c.m.ev) >= 20000 { // bounded: a spinning association must not exhaust the machine
+		c.m.mu.Unlock()
+		return
+	}
 	e.a, e.client, e.key, e.t = c.a, c.client, c.key, time.Now()
 	c.m.ev = append(c.m.ev, e)
 	c.m.mu.Unlock()
@@ -374,11 +381,29 @@ func (h *vnHarness) liveConn(c int) *vnConn {
 	return fc
 }
 
+// memory backstop (real time, outside the bubbles): abort the test binary above 3 GiB resident
+func vnMemoryWatchdog() {
+	go func() {
+		for {
+			if b, err := os.ReadFile("/proc/self/statm"); err == nil {
+				var size, rss int64
+				fmt.Sscanf(string(b), "%d %d", &size, &rss)
+				if rss*int64(os.Getpagesize()) > 3<<30 {
+					fmt.Fprintln(os.Stderr, "HARNESS-ERROR: memory watchdog: resident set above 3 GiB, aborting")
+					os.Exit(3)
+				}
+			}
+			time.Sleep(100 * time.Millisecond)
+		}
+	}()
+}
+
 func TestVerifNatmap(t *testing.T) {
 	inPath, outPath := os.Getenv("VERIF_NM_IN"), os.Getenv("VERIF_NM_OUT")
 	if inPath == "" || outPath == "" {
 		t.Skip("VERIF_NM_IN / VERIF_NM_OUT not set")
 	}
+	vnMemoryWatchdog()
 	var cfg struct{ T, DNST int }
 	if err := json.Unmarshal([]byte(os.Getenv("VERIF_NM_CFG")), &cfg); err != nil || cfg.T == 0 || cfg.DNST == 0 {
 		t.Fatalf("VERIF_NM_CFG: %v", err)
@@ -501,6 +526,14 @@ func TestVerifNatmap(t *testing.T) {
 			ml := len(h.nm.keyConn)
 			h.nm.RUnlock()
 			h.emit(map[string]any{"ev": "EndV", "beh": bi, "mapLen": ml, "open": open, "doubleClose": dbl, "conns": len(h.conns), "virtualMs": int(time.Since(h.start) / time.Millisecond)})
+			// leave no goroutine behind in the bubble (a tree whose natmap.Close does not expire everything would
+			// otherwise turn into a harness failure instead of the verdict recorded above)
+			time.Sleep(time.Duration(cfg.DNST+cfg.T+1) * unit)
+			synctest.Wait()
+			for _, c := range h.conns {
+				c.SetReadDeadline(time.Now())
+			}
+			synctest.Wait()
 		})
 	}
 }
